@@ -3,6 +3,7 @@ use crate::gen::config::{Cfg, RowTags, Tag};
 use crate::gen::diff::{HLine, LK};
 use crate::term::{Row, Screen};
 
+
 #[derive(Clone, Copy, Debug, PartialEq, Eq)]
 pub enum RowKind {
     Minus,
@@ -108,4 +109,140 @@ pub fn kind_of(k: LK) -> RowKind {
 
 pub fn max_line_length(cfg: &Cfg) -> usize {
     cfg.get("max-line-length").and_then(|s| s.parse().ok()).unwrap_or(3000)
+}
+
+// ---------------------------------------------------------------------------------------------
+// side-by-side rows
+
+#[derive(Clone, Debug, Default)]
+pub struct Panel {
+    /// integers found in the number cells of this panel's gutter (cells painted with the
+    /// minus/zero/plus line-number styles), in order
+    pub numbers: Vec<u64>,
+    /// tags of the gutter's number cells
+    pub number_tags: Vec<Tag>,
+    /// content cells (after the gutter), as (text, width, tag)
+    pub cells: Vec<(String, usize, Option<Tag>)>,
+    /// display column at which this panel's content starts
+    pub content_col: usize,
+    /// display column at which this panel (its gutter) starts
+    pub start_col: usize,
+}
+
+impl Panel {
+    pub fn text(&self) -> String {
+        self.cells.iter().map(|c| c.0.as_str()).collect()
+    }
+    /// content without wrap symbols (inline-hint cells)
+    pub fn text_without_hints(&self) -> String {
+        self.cells.iter().filter(|c| c.2 != Some(Tag::InlineHint)).map(|c| c.0.as_str()).collect()
+    }
+    pub fn has(&self, f: impl Fn(Tag) -> bool) -> bool {
+        self.cells.iter().any(|c| c.2.map(|t| f(t)).unwrap_or(false))
+    }
+    pub fn width(&self) -> usize {
+        self.cells.iter().map(|c| c.1).sum()
+    }
+}
+
+fn ints_of(s: &str) -> Vec<u64> {
+    let mut v = Vec::new();
+    let mut cur = String::new();
+    for c in s.chars() {
+        if c.is_ascii_digit() {
+            cur.push(c);
+        } else if !cur.is_empty() {
+            v.push(cur.parse().unwrap_or(u64::MAX));
+            cur.clear();
+        }
+    }
+    if !cur.is_empty() {
+        v.push(cur.parse().unwrap_or(u64::MAX));
+    }
+    v
+}
+
+fn is_number_tag(t: Tag) -> bool {
+    matches!(t, Tag::LnMinus | Tag::LnZero | Tag::LnPlus)
+}
+
+/// Split a row of the side-by-side view with line numbers into its two panels.  Returns None if
+/// the row has no two gutters (not a side-by-side content row).
+pub fn split_sbs(row: &Row) -> Option<(Panel, Panel)> {
+    let tag_of = |i: usize| Tag::from_color(row.cells[i].st.bg);
+    let is_g = |i: usize| tag_of(i).map(|t| t.is_gutter()).unwrap_or(false);
+    let n = row.cells.len();
+    let mut i0 = 0;
+    while i0 < n && is_g(i0) {
+        i0 += 1;
+    }
+    if i0 == 0 || i0 == n {
+        return None;
+    }
+    let mut i1 = i0;
+    while i1 < n && !is_g(i1) {
+        i1 += 1;
+    }
+    if i1 == n {
+        return None;
+    }
+    let mut i2 = i1;
+    while i2 < n && is_g(i2) {
+        i2 += 1;
+    }
+    let mk = |g: std::ops::Range<usize>, c: std::ops::Range<usize>| -> Panel {
+        let mut p = Panel::default();
+        let mut numtext = String::new();
+        p.start_col = row.cells[..g.start].iter().map(|c| c.width).sum();
+        for i in g.clone() {
+            if let Some(t) = tag_of(i) {
+                if is_number_tag(t) {
+                    numtext.push_str(&row.cells[i].text);
+                    if !p.number_tags.contains(&t) {
+                        p.number_tags.push(t);
+                    }
+                    continue;
+                }
+            }
+            numtext.push('|');
+        }
+        p.numbers = ints_of(&numtext);
+        p.content_col = row.cells[..c.start].iter().map(|c| c.width).sum();
+        for i in c {
+            p.cells.push((row.cells[i].text.clone(), row.cells[i].width, tag_of(i)));
+        }
+        p
+    };
+    Some((mk(0..i0, i0..i1), mk(i1..i2, i2..n)))
+}
+
+/// numbers in the gutter of a unified row, in order
+pub fn unified_gutter_numbers(row: &Row) -> Vec<u64> {
+    let mut numtext = String::new();
+    for c in &row.cells {
+        match Tag::from_color(c.st.bg) {
+            Some(t) if is_number_tag(t) => numtext.push_str(&c.text),
+            Some(t) if t.is_gutter() => numtext.push('|'),
+            _ => break,
+        }
+    }
+    ints_of(&numtext)
+}
+
+/// placeholders ({nm} = false, {np} = true) of a line-number format string, in order
+pub fn placeholders(fmt: &str) -> Vec<bool> {
+    let mut v = Vec::new();
+    let b = fmt.as_bytes();
+    let mut i = 0;
+    while i + 3 < b.len() + 1 {
+        if b[i] == b'{' && i + 3 <= b.len() {
+            let name = &fmt[i + 1..(i + 3).min(fmt.len())];
+            let after = fmt[i + 3..].chars().next();
+            if (name == "nm" || name == "np") && matches!(after, Some('}') | Some(':')) {
+                v.push(name == "np");
+            }
+        }
+        i += 1;
+    }
+    v
 }
